@@ -140,97 +140,103 @@ class Stub:
         self.helper_calls.append(('s_covd', indexing))
         if not isinstance(indexing, str) or any(ch not in 'ud' for ch in indexing) or len(indexing) > 2:
             raise ValueError('indexing')
-        return tens(self.U.covd3(untens(f), indexing))
+        return fresh(self.U.covd3(untens(f), indexing))
 
     def st_covd(self, f, dtf, indexing):
         self.helper_calls.append(('st_covd', indexing))
-        return tens(self.U.covd4(untens(f), untens(dtf), indexing))
+        return fresh(self.U.covd4(untens(f), untens(dtf), indexing))
 
     def s_div(self, f, indexing):
         self.helper_calls.append(('s_div', indexing))
-        return tens(spec_s_div(self.U, untens(f), indexing))
+        return fresh(spec_s_div(self.U, untens(f), indexing))
 
     def s_curl(self, f, indexing):
         self.helper_calls.append(('s_curl', indexing))
-        return tens(spec_s_curl(self.U, untens(f)))
+        return fresh(spec_s_curl(self.U, untens(f)))
 
     def Lie_beta(self, f, indexing, weight=0):
         self.helper_calls.append(('Lie_beta', indexing, weight))
         dim, idx = parse_lie_indexing(indexing)
-        return tens(self.U.lie_beta(untens(f), idx, weight, dim))
+        return fresh(self.U.lie_beta(untens(f), idx, weight, dim))
 
     def s_to_st(self, f):
-        return tens(self.U.s_to_st(untens(f)))
+        return fresh(self.U.s_to_st(untens(f)))
 
     def trace3(self, f):
-        return tens(_np.einsum('ij,ij->', self.U['gammaup3'], untens(f)))
+        return fresh(_np.einsum('ij,ij->', self.U['gammaup3'], untens(f)))
 
     def trace4(self, f):
-        return tens(_np.einsum('ij,ij->', self.U['gup4'], untens(f)))
+        return fresh(_np.einsum('ij,ij->', self.U['gup4'], untens(f)))
 
     def tracefree3(self, f):
         f = untens(f)
         from fractions import Fraction
         tr = _np.einsum('ij,ij->', self.U['gammaup3'], f)
-        return tens(f - self.U['gammadown3'] * tr * Fraction(1, 3))
+        return fresh(f - self.U['gammadown3'] * tr * Fraction(1, 3))
 
     def magnitude3(self, f):
         from fractions import Fraction
         f = untens(f)
         gu = self.U['gammaup3']
-        return tens(_np.einsum('ab,ij,ai,bj->', f, f, gu, gu) * Fraction(1, 2))
+        return fresh(_np.einsum('ab,ij,ai,bj->', f, f, gu, gu) * Fraction(1, 2))
 
     def magnitude4(self, f):
         from fractions import Fraction
         f = untens(f)
         gu = self.U['gup4']
-        return tens(_np.einsum('ab,ij,ai,bj->', f, f, gu, gu) * Fraction(1, 2))
+        return fresh(_np.einsum('ab,ij,ai,bj->', f, f, gu, gu) * Fraction(1, 2))
 
     def vector_inner_product3(self, a, b):
-        return tens(_np.einsum('a,b,ab->', untens(a), untens(b), self.U['gammadown3']))
+        return fresh(_np.einsum('a,b,ab->', untens(a), untens(b), self.U['gammadown3']))
 
     def vector_inner_product4(self, a, b):
-        return tens(_np.einsum('a,b,ab->', untens(a), untens(b), self.U['gdown4']))
+        return fresh(_np.einsum('a,b,ab->', untens(a), untens(b), self.U['gdown4']))
 
     def norm3(self, a):
         v = _np.einsum('a,b,ab->', untens(a), untens(a), self.U['gammadown3'])
-        return tens(abs(v).sqrt())
+        return fresh(abs(v).sqrt())
 
     def norm4(self, a):
         v = _np.einsum('a,b,ab->', untens(a), untens(a), self.U['gdown4'])
-        return tens(abs(v).sqrt())
+        return fresh(abs(v).sqrt())
 
     def kronecker_delta3(self):
         k = ozeros(3, 3)
         for i in range(3):
             k[i, i] = 1
-        return tens(k)
+        return fresh(k)
 
     def kronecker_delta4(self):
         k = ozeros(4, 4)
         for i in range(4):
             k[i, i] = 1
-        return tens(k)
+        return fresh(k)
 
-    def levicivita_down3(self): return tens(self.U['levicivita_down3'])
-    def levicivita_down4(self): return tens(self.U['levicivita_down4'])
+    def levicivita_down3(self): return fresh(self.U['levicivita_down3'])
+    def levicivita_down4(self): return fresh(self.U['levicivita_down4'])
 
     def levicivita_symbol_down3(self):
         from .universe import eps_symbol
-        return tens(eps_symbol(3))
+        return fresh(eps_symbol(3))
 
     def levicivita_symbol_down4(self):
         from .universe import eps_symbol
-        return tens(eps_symbol(4))
+        return fresh(eps_symbol(4))
 
     def null_ray_expansion(self, Fs, direction='out'):
-        return tens(spec_null_ray_expansion(self.U, untens(Fs), direction))
+        return fresh(spec_null_ray_expansion(self.U, untens(Fs), direction))
 
     def null_vector_base(self):
         return tuple(tens(v) for v in self.U.null_vectors())
 
     def tetrad_base(self):
         return tuple(tens(v) for v in self.U.tetrad_vectors())
+
+
+def fresh(a):
+    """a value returned by a callee *method call*: a new array the caller owns."""
+    a = _np.asarray(a, dtype=object)
+    return a.reshape(a.shape + (1, 1, 1)).copy()
 
 
 def _to_code(v):
